@@ -153,6 +153,9 @@ fn classify(lane: Lane, fill: u64, script: &[Chunk], i: usize, got: &[u8]) -> Fa
         if gl != lane && (seq == FIN_SEQ || (seq as usize) < 200) && gl.side <= 1 && gl.role <= 1 && PROTOCOLS.contains(&gl.proto) {
             return fail("chunk-delivered-to-wrong-lane", "a chunk stamped for another protocol/role arrived here".into());
         }
+        if gl == lane && seq == FIN_SEQ {
+            return fail("chunk-corrupted", "this lane's FIN marker arrived damaged".into());
+        }
         if gl == lane && seq != FIN_SEQ {
             let j = seq as usize;
             if j < script.len() && payload(fill, lane, seq, script[j].size as usize) == got {
@@ -190,7 +193,9 @@ async fn receiver(mut ch: AgentChannel, lane: Lane, fill: u64, script: Vec<Chunk
                     // been dispatched; allow a grace period in case that reasoning were wrong
                     if !graced {
                         graced = true;
-                        tokio::time::sleep(Duration::from_millis(300)).await;
+                        // (once a violation has been established the margin only slows shrinking down)
+                        let ms = if FOUND.load(Ordering::Relaxed) { 5 } else { 300 };
+                        tokio::time::sleep(Duration::from_millis(ms)).await;
                         continue;
                     }
                     return RecvEnd::Fail(Fail {
